@@ -125,6 +125,20 @@ MARKERS = {
         (10, r"if" + W + r"lock_err\.contains\(" + W + r'"lock json invalid"' + W + r"\)" + W + r"&&" + W + r"lock_invalid_since" + W + r"\.map\(" + W + r"\|since\|" + W + r"since\.elapsed\(\)" + W + r">" + W + r"std::time::Duration::from_secs\(1\)" + W + r"\)" + W + r"\.unwrap_or\(false\)" + W + r"\{"),
         (11, r"try_cleanup_corrupt_lock_file\("),
     ],
+    "serve": [
+        (1, r"acquire_authority_lock_with_recovery\("),
+        (2, r"TcpListener::bind\("),
+        (3, r"lock\.write_meta\("),
+        (4, r"tokio::select!"),
+        (5, r"shutdown_tx\.send\("),
+        (6, r"tokio::time::timeout\("),
+        (7, r"server_task\.abort\(\)"),
+        # any explicit release / move of the guard before the end of serve
+        (8, r"\bdrop\(" + W + r"lock" + W + r"\)"),
+        (8, r"mem::forget\(" + W + r"lock" + W + r"\)"),
+        (8, r"let" + W + r"_" + W + r"=" + W + r"lock" + W + r";"),
+        (8, r"move" + W + r"\|[^|]*\|[^;]*\block\b"),
+    ],
     "client": [
         (1, r"read_authority_meta\("),
         (2, r"ping\(" + W + r"&client" + W + r"," + W + r"&meta\.endpoint" + W + r"\)"),
@@ -153,6 +167,41 @@ def order(body, which):
     return [c for _, c in hits]
 
 
+def consts(src):
+    return dict(re.findall(r'const\s+([A-Z_]+)\s*:\s*&str\s*=\s*"([^"]*)"\s*;', src))
+
+
+def static_prefix(fmt, cs):
+    """format string -> the text before its first run-time placeholder, inline consts ({LOCK_FILE}) substituted"""
+    out = ""
+    i = 0
+    while i < len(fmt):
+        if fmt.startswith("{{", i):
+            out += "{"; i += 2; continue
+        if fmt[i] == "{":
+            j = fmt.find("}", i)
+            name = fmt[i + 1:j] if j > 0 else ""
+            if name in cs:
+                out += cs[name]; i = j + 1; continue
+            break
+        out += fmt[i]; i += 1
+    return out
+
+
+def reader_error(body, cs):
+    m = re.search(r'serde_json::from_str\([^)]*\)\s*\.map_err\(\s*\|err\|\s*format!\(\s*"((?:[^"\\]|\\.)*)"', body or "")
+    return static_prefix(m.group(1), cs) if m else None
+
+
+def contains_literal(body, var):
+    m = re.search(r"\b" + var + r'\.contains\(\s*"((?:[^"\\]|\\.)*)"\s*\)', body or "")
+    return m.group(1) if m else None
+
+
+def coq_bytes(t):
+    return "[" + "; ".join(str(b) for b in t.encode("utf-8")) + "]"
+
+
 def main():
     ap = argparse.ArgumentParser()
     ap.add_argument("--repo", required=True)
@@ -176,8 +225,14 @@ def main():
         "corrupt": fn_body(la, "try_cleanup_corrupt_lock_file"),
         "server": fn_body(sv, "acquire_authority_lock_with_recovery"),
         "client": fn_body(cl, "ensure_local_authority_with_paths"),
+        "serve": fn_body(sv, "serve"),
     }
-    missing = [k for k, v in bodies.items() if v is None]
+    cs = consts(la)
+    lock_err = reader_error(fn_body(la, "read_authority_lock_record"), cs)
+    server_pat = contains_literal(bodies["server"], "lock_err")
+    client_pat = contains_literal(bodies["client"], "err")
+    strings = {"lock_err": lock_err, "server_pat": server_pat, "client_pat": client_pat}
+    missing = [k for k, v in bodies.items() if v is None] + [k for k, v in strings.items() if v is None]
     lines = [
         "(* GENERATED by tools/gen/auth_steps.py from crates/ripd/src/{local_authority,server}.rs and",
         "   crates/rip-cli/src/local_authority.rs on every ./check run -- do not edit.  A committed copy serves as seed only. *)",
@@ -185,16 +240,28 @@ def main():
         "",
         "Definition gen_auth_found : bool := %s.%s" % ("false" if missing else "true", ("   (* not found: %s *)" % ", ".join(missing)) if missing else ""),
     ]
-    for k in ["acquire", "drop", "meta", "stale", "corrupt", "server", "client"]:
+    for k in ["acquire", "drop", "meta", "stale", "corrupt", "server", "client", "serve"]:
         seq = order(bodies[k], k) if bodies[k] is not None else []
         lines.append("Definition gen_%s_steps : list N := [%s]." % (k, "; ".join(str(c) for c in seq)))
+    for k in ["lock_err", "server_pat", "client_pat"]:
+        v = strings[k] or ""
+        lines.append("(* %s = %r *)" % (k, v))
+        lines.append("Definition gen_%s : list N := %s." % (k, coq_bytes(v)))
     lines += [
         "",
         "Definition gen_auth_steps : auth_steps :=",
         "  {| as_acquire := gen_acquire_steps; as_drop := gen_drop_steps; as_meta := gen_meta_steps; as_stale := gen_stale_steps;",
-        "     as_corrupt := gen_corrupt_steps; as_server := gen_server_steps; as_client := gen_client_steps |}.",
+        "     as_corrupt := gen_corrupt_steps; as_server := gen_server_steps; as_client := gen_client_steps;",
+        "     as_serve := gen_serve_steps; as_lock_err := gen_lock_err; as_server_pat := gen_server_pat; as_client_pat := gen_client_pat |}.",
         "",
         "Lemma gen_auth_steps_found : gen_auth_found = true.",
+        "Proof. vm_compute. reflexivity. Qed.",
+        "(* the classification table the model's step `RLock (LHalf _) => corrupt cleanup` (hence c18_recovers_partial for a",
+        "   half-written lock) relies on: both loops recognise the reader's error text *)",
+        "Lemma gen_loops_recognise_corrupt : loops_recognise_corrupt gen_auth_steps = true.",
+        "Proof. vm_compute. reflexivity. Qed.",
+        "(* the authority guard is not released before the end of serve *)",
+        "Lemma gen_serve_keeps_guard : lN_eqb (as_serve gen_auth_steps) exp_serve = true.",
         "Proof. vm_compute. reflexivity. Qed.",
         "Lemma gen_auth_steps_ok : auth_steps_wf gen_auth_steps = true.",
         "Proof. vm_compute. reflexivity. Qed.",
